@@ -12,6 +12,17 @@
 (* Sender A = node 0 and recipient D = node 1 share C channels; part i      *)
 (* travels on channel ((i-1) mod C) + 1 as its own send_payment call, so    *)
 (* that secret class, total_msat and final CLTV can differ per part.        *)
+(*                                                                         *)
+(* Onion fields: every part carries a class of recipient onion fields      *)
+(* (custom TLVs of even / odd type with values, payment_metadata);         *)
+(* RecipientOnionFields::check_merge compares a new part with what the     *)
+(* parts held so far have in common.  Amounts: a part's last forwarding    *)
+(* node may skim `short` off the sender-intended amount and report `tlv`   *)
+(* as skimmed_fee_msat; the receiving channels have                        *)
+(* accept_underpaying_htlcs (up) or not.  The user claims with claim_funds *)
+(* or claim_funds_with_known_custom_tlvs.                                  *)
+(* `Bug` plants a defect in the design (spec mutants: TLC must find the    *)
+(* observable specification violated).                                     *)
 (***************************************************************************)
 EXTENDS PayRecv, Json
 
@@ -21,31 +32,52 @@ CONSTANTS C, MaxParts, Amts, Tots, Secs, Cls,
           BUF, MPPT,   \* HTLC_FAIL_BACK_BUFFER, MPP_TIMEOUT_TICKS
           MaxTicks, MaxBlocks, MaxDev, MaxOps,
           EmitMod,     \* print the behaviour of every EmitMod-th quiescent state only (1: all)
-          StaleClaim   \* TRUE: the user may answer a PaymentClaimable whose HTLCs were failed back meanwhile
+          StaleClaim,  \* TRUE: the user may answer a PaymentClaimable whose HTLCs were failed back meanwhile
                        \* while a new, incomplete set of the same hash is held (KNOWN finding, see c04.py)
+          Flds,        \* classes of recipient onion fields a part may carry (FldTlvs / FldMeta)
+          Sks,         \* what the last forwarding node does to a part (SkShort / SkTlv)
+          Ups,         \* \subseteq BOOLEAN: accept_underpaying_htlcs of the recipient's channels
+          RegMeta,     \* 0: registered without payment_metadata, n > 0: with metadata n
+          ClaimKinds,  \* \subseteq {"claim", "claimk"}
+          Bug          \* "none" | "evenLater" | "evenValue" | "skimNoOptIn" | "skimUncovered" | "claimEven" | "intendedShown"
 
-VARIABLES cp, part, h, np, nextId, seen, answered, got, obs, hist, quiet, nops, ntick, nblk, ndev
+VARIABLES cp, part, h, np, nextId, seen, answered, got, obs, hist, quiet, nops, ntick, nblk, ndev, up
 
-dvars == <<cp, part, h, np, nextId, seen, answered, got, ntick, nblk, ndev>>
+dvars == <<cp, part, h, np, nextId, seen, answered, got, ntick, nblk, ndev, up>>
 mvars == <<rvars, dvars, obs, hist, quiet, nops>>
 
 H0 == 100
 Init0 == 1000000
-NoCp == [parts |-> {}, total |-> 0, complete |-> FALSE, shown |-> 0, sp |-> {}]
+NoCp == [parts |-> {}, total |-> 0, complete |-> FALSE, shown |-> 0, sp |-> {}, fields |-> {}]
+
+\* custom TLV types: E* must be understood by the recipient, O* are optional
+E1 == 65536  O1 == 65537  E2 == 65538  O2 == 65539
+FldTlvs(f) == CASE f = "none" -> {} [] f = "o1" -> {<<O1, 1>>} [] f = "o1b" -> {<<O1, 2>>} [] f = "o2" -> {<<O2, 1>>}
+                [] f = "e1" -> {<<E1, 1>>} [] f = "e1b" -> {<<E1, 2>>} [] f = "e2" -> {<<E2, 1>>}
+                [] f = "e1o1" -> {<<E1, 1>>, <<O1, 1>>} [] f = "e1e2" -> {<<E1, 1>>, <<E2, 1>>} [] f = "o1o2" -> {<<O1, 1>>, <<O2, 1>>} [] f = "o1e2" -> {<<O1, 1>>, <<E2, 1>>}
+                [] f \in {"mnone", "mflip"} -> {}
+\* payment_metadata of the part: 0 none, 1 the one the registration returned, 2 another one
+FldMeta(f) == CASE f = "mnone" -> 0 [] f = "mflip" -> 2 [] OTHER -> IF RegMeta > 0 THEN 1 ELSE 0
+\* the last forwarding node keeps SkShort of the sender-intended amount and reports SkTlv as skimmed_fee_msat
+SkShort(k) == IF k \in {"no", "tlv"} THEN 0 ELSE 2
+SkTlv(k) == CASE k = "no" -> 0 [] k = "tlv" -> 1 [] k = "s0" -> 0 [] k = "s-1" -> 1 [] k = "s=" -> 2 [] k = "s+" -> 3
 
 MCInit ==
   /\ RInit
+  /\ up \in Ups
   /\ cp = NoCp /\ part = <<>> /\ h = H0 /\ np = 0 /\ nextId = [c \in 1..C |-> 0]
   /\ seen = FALSE /\ answered = FALSE /\ got = 0 /\ ntick = 0 /\ nblk = 0 /\ ndev = 0
-  /\ obs = <<[t |-> "open"], [t |-> "reg", r |-> 1, hash |-> 1, amt |-> RegAmt, min |-> RegMin],
-             [t |-> "reg", r |-> 2, hash |-> 2, amt |-> 1, min |-> 0]>>
+  /\ obs = <<[t |-> "open"], [t |-> "reg", r |-> 1, hash |-> 1, amt |-> RegAmt, min |-> RegMin, meta |-> RegMeta],
+             [t |-> "reg", r |-> 2, hash |-> 2, amt |-> 1, min |-> 0, meta |-> 0]>>
   /\ hist = <<>> /\ quiet = FALSE /\ nops = 0
 
 Idle == obs = <<>>
 Hop(op) == hist' = Append(hist, op) /\ nops' = nops + 1
 Emit(seq) == obs' = seq /\ UNCHANGED rvars
 SeqOf(S) == SelectSeq([i \in 1..MaxParts |-> i], LAMBDA i : i \in S)
-SumP(S) == FoldSet(LAMBDA i, acc : acc + part[i].amt, 0, S)
+SumP(S) == FoldSet(LAMBDA i, acc : acc + part[i].amt, 0, S)          \* received
+SumO(S) == FoldSet(LAMBDA i, acc : acc + part[i].oamt, 0, S)         \* intended by the sender
+SumT(S) == FoldSet(LAMBDA i, acc : acc + part[i].tlv, 0, S)          \* reported as skimmed
 MinC(S) == CHOOSE c \in {part[i].cltv : i \in S} : \A i \in S : c <= part[i].cltv
 FailObs(S) == [j \in 1..Cardinality(S) |-> [t |-> "failmsg", chan |-> part[SeqOf(S)[j]].chan, id |-> part[SeqOf(S)[j]].id]]
 FulObs(S) == [j \in 1..Cardinality(S) |-> [t |-> "fulmsg", chan |-> part[SeqOf(S)[j]].chan, id |-> part[SeqOf(S)[j]].id]]
@@ -58,13 +90,14 @@ ClOff(cl) == CASE cl = "b0" -> BUF [] cl = "b1" -> BUF + 1 [] cl = "b2" -> BUF +
 MObs ==
   /\ obs # <<>>
   /\ LET o == Head(obs) IN
-     CASE o.t = "open" -> ROpen({0, 1}, [n \in {0, 1} |-> Init0], H0, BUF, MPPT)
-       [] o.t = "reg" -> RReg(o.r, 1, o.hash, o.amt, o.min, 3600)
-       [] o.t = "sent" -> RSent(<<[hash |-> 1, dst |-> 1, amt |-> o.amt, sreg |-> o.sreg, total |-> o.total, keysend |-> FALSE, used |-> FALSE]>>)
-       [] o.t = "arrive" -> RArrive(1, o.chan, o.id, 1, o.amt, o.cltv)
+     CASE o.t = "open" -> ROpen({0, 1}, [n \in {0, 1} |-> Init0], H0, BUF, MPPT, IF up THEN 1..C ELSE {})
+       [] o.t = "reg" -> RReg(o.r, 1, o.hash, o.amt, o.min, 3600, o.meta)
+       [] o.t = "sent" -> RSent(<<[hash |-> 1, dst |-> 1, amt |-> o.amt, oamt |-> o.oamt, sreg |-> o.sreg, total |-> o.total,
+                                  tlvs |-> o.tlvs, meta |-> o.meta, keysend |-> FALSE, used |-> FALSE]>>)
+       [] o.t = "arrive" -> RArrive(1, o.chan, o.id, 1, o.amt, o.cltv, o.skim)
        [] o.t = "forward" -> RForward(1, {<<o.chan, o.id>>})
-       [] o.t = "claimable" -> RClaimable(1, 1, o.amt, o.deadline)
-       [] o.t = "claimcall" -> RDecide(1, 1, "claim")
+       [] o.t = "claimable" -> RClaimable(1, 1, o.amt, o.deadline, o.skimmed, o.tlvs, RegMeta)
+       [] o.t = "claimcall" -> RDecide(1, 1, o.kind)
        [] o.t = "failcall" -> RDecide(1, 1, "fail")
        [] o.t = "fulmsg" -> RFulfil(1, o.chan, o.id)
        [] o.t = "failmsg" -> RFail(1, o.chan, o.id)
@@ -76,62 +109,82 @@ MObs ==
   /\ UNCHANGED <<dvars, hist, quiet, nops>>
 
 \* ---------------------------------------------------------------- a part arrives and is processed
-Dev(a, sec, tot, cl) == (IF sec # "ok" THEN 1 ELSE 0) + (IF tot # RegAmt THEN 1 ELSE 0) + (IF cl # "far" THEN 1 ELSE 0)
-MPart(a, sec, tot, cl) ==
+Dev(a, sec, tot, cl, sk) == (IF sec # "ok" THEN 1 ELSE 0) + (IF tot # RegAmt THEN 1 ELSE 0) + (IF cl # "far" THEN 1 ELSE 0)
+                            + (IF sk # "no" THEN 1 ELSE 0)
+MPart(a, sec, tot, cl, f, sk) ==
   /\ Idle /\ np < MaxParts /\ ~answered
-  /\ ndev + Dev(a, sec, tot, cl) <= MaxDev
+  /\ ndev + Dev(a, sec, tot, cl, sk) <= MaxDev
   /\ (cl \in {"m-1", "m0"}) => RegMin > 0
+  /\ a > SkShort(sk)
   /\ LET i == np + 1
          c == ((i - 1) % C) + 1
          id == nextId[c]
          cltv == h + ClOff(cl)
          sreg == IF sec = "ok" THEN 1 ELSE IF sec = "other" THEN 2 ELSE 0
-         p == [amt |-> a, cltv |-> cltv, chan |-> c, id |-> id, st |-> "held", ticks |-> 0]
-         pre == <<[t |-> "sent", amt |-> a, sreg |-> sreg, total |-> tot],
-                  [t |-> "arrive", chan |-> c, id |-> id, amt |-> a, cltv |-> cltv],
+         recv == a - SkShort(sk)
+         tlv == SkTlv(sk)
+         tl == FldTlvs(f)
+         p == [amt |-> recv, oamt |-> a, tlv |-> tlv, cltv |-> cltv, chan |-> c, id |-> id, st |-> "held", ticks |-> 0]
+         pre == <<[t |-> "sent", amt |-> recv, oamt |-> a, sreg |-> sreg, total |-> tot, tlvs |-> tl, meta |-> FldMeta(f)],
+                  [t |-> "arrive", chan |-> c, id |-> id, amt |-> recv, cltv |-> cltv, skim |-> tlv],
                   [t |-> "forward", chan |-> c, id |-> id]>>
-         \* inbound_payment::verify + the final-CLTV checks
+         \* create_recv_pending_htlc_info: the amount against what the onion says
+         amtOK == CASE Bug = "skimNoOptIn" -> recv >= a \/ ((up \/ tlv > 0) /\ recv + tlv >= a)
+                    [] Bug = "skimUncovered" -> recv >= a \/ (up /\ tlv > 0)
+                    [] OTHER -> recv >= a \/ (up /\ recv + tlv >= a)
+         \* inbound_payment::verify (the secret authenticates amount, expiry, metadata) + the final-CLTV checks
          verifyOK == /\ sreg = 1 /\ tot >= RegAmt
+                     /\ FldMeta(f) = (IF RegMeta > 0 THEN 1 ELSE 0)
                      /\ (RegMin = 0 \/ cltv >= h + RegMin)
                      /\ cltv > h + BUF + 1
+         haveO == SumO(cp.parts)
          have == SumP(cp.parts)
-         failNew == /\ part' = Append(part, [p EXCEPT !.st = "failed"])
-                    /\ Emit(pre \o <<[t |-> "failmsg", chan |-> c, id |-> id]>>)
-                    /\ UNCHANGED <<cp, seen>>
+         \* RecipientOnionFields::check_merge: the even TLVs must be the same; what differs otherwise is dropped
+         evOK == CASE Bug = "evenLater" -> Evens(cp.fields) \subseteq tl
+                   [] Bug = "evenValue" -> {x[1] : x \in Evens(cp.fields)} = {x[1] : x \in Evens(tl)}
+                   [] OTHER -> Evens(cp.fields) = Evens(tl)
+         merged == cp.fields \cap tl
+         failNew(cpn) == /\ part' = Append(part, [p EXCEPT !.st = "failed"])
+                         /\ Emit(pre \o <<[t |-> "failmsg", chan |-> c, id |-> id]>>)
+                         /\ cp' = cpn /\ UNCHANGED seen
      IN /\ np' = i /\ nextId' = [nextId EXCEPT ![c] = @ + 1]
-        /\ ndev' = ndev + Dev(a, sec, tot, cl)
-        /\ IF ~verifyOK THEN failNew
+        /\ ndev' = ndev + Dev(a, sec, tot, cl, sk)
+        /\ IF ~amtOK \/ ~verifyOK THEN failNew(cp)
            ELSE IF cp.parts = {} THEN
              /\ part' = Append(part, p)
              /\ IF a >= tot
-                THEN /\ cp' = [parts |-> {i}, total |-> tot, complete |-> TRUE, shown |-> a, sp |-> {i}]
+                THEN /\ cp' = [parts |-> {i}, total |-> tot, complete |-> TRUE, shown |-> IF Bug = "intendedShown" THEN a ELSE recv, sp |-> {i}, fields |-> tl]
                      /\ seen' = TRUE
-                     /\ Emit(pre \o <<[t |-> "claimable", amt |-> a, deadline |-> cltv - BUF]>>)
-                ELSE /\ cp' = [parts |-> {i}, total |-> tot, complete |-> FALSE, shown |-> 0, sp |-> {}]
+                     /\ Emit(pre \o <<[t |-> "claimable", amt |-> IF Bug = "intendedShown" THEN a ELSE recv, deadline |-> cltv - BUF, skimmed |-> tlv, tlvs |-> tl]>>)
+                ELSE /\ cp' = [parts |-> {i}, total |-> tot, complete |-> FALSE, shown |-> 0, sp |-> {}, fields |-> tl]
                      /\ Emit(pre) /\ UNCHANGED seen
-           ELSE IF tot # cp.total \/ have >= cp.total THEN failNew      \* check_merge / already claimable
+           ELSE IF tot # cp.total \/ ~evOK THEN failNew(cp)                       \* check_merge refuses
+           ELSE IF haveO >= cp.total THEN failNew([cp EXCEPT !.fields = merged])    \* already claimable (the fields were merged)
            ELSE /\ part' = Append(part, p)
-                /\ IF have + a >= cp.total
-                   THEN /\ cp' = [cp EXCEPT !.parts = @ \cup {i}, !.complete = TRUE, !.shown = have + a, !.sp = cp.parts \cup {i}]
+                /\ IF haveO + a >= cp.total
+                   THEN /\ cp' = [cp EXCEPT !.parts = @ \cup {i}, !.complete = TRUE, !.shown = (IF Bug = "intendedShown" THEN haveO + a ELSE have + recv),
+                                            !.sp = cp.parts \cup {i}, !.fields = merged]
                         /\ seen' = TRUE
                         /\ LET m == MinC(cp.parts) IN
-                           Emit(pre \o <<[t |-> "claimable", amt |-> have + a, deadline |-> (IF cltv < m THEN cltv ELSE m) - BUF]>>)
-                   ELSE /\ cp' = [cp EXCEPT !.parts = @ \cup {i}]
+                           Emit(pre \o <<[t |-> "claimable", amt |-> (IF Bug = "intendedShown" THEN haveO + a ELSE have + recv),
+                                          deadline |-> (IF cltv < m THEN cltv ELSE m) - BUF,
+                                          skimmed |-> SumT(cp.parts) + tlv, tlvs |-> merged]>>)
+                   ELSE /\ cp' = [cp EXCEPT !.parts = @ \cup {i}, !.fields = merged]
                         /\ Emit(pre) /\ UNCHANGED seen
-  /\ UNCHANGED <<h, answered, got, ntick, nblk>>
-  /\ Hop([op |-> "part", amt |-> a, sec |-> sec, tot |-> tot, cl |-> cl]) /\ quiet' = FALSE
+  /\ UNCHANGED <<h, answered, got, ntick, nblk, up>>
+  /\ Hop([op |-> "part", amt |-> a, sec |-> sec, tot |-> tot, cl |-> cl, f |-> f, sk |-> sk]) /\ quiet' = FALSE
 
 \* timer_tick_occurred: an incomplete set whose oldest part has waited MPP_TIMEOUT_TICKS is failed
 MTick ==
   /\ Idle /\ ntick < MaxTicks
   /\ ntick' = ntick + 1
   /\ LET aged == [i \in DOMAIN part |-> IF i \in cp.parts THEN [part[i] EXCEPT !.ticks = @ + 1] ELSE part[i]] IN
-     IF cp.parts # {} /\ SumP(cp.parts) < cp.total /\ \E i \in cp.parts : aged[i].ticks >= MPPT
+     IF cp.parts # {} /\ SumO(cp.parts) < cp.total /\ \E i \in cp.parts : aged[i].ticks >= MPPT
      THEN /\ part' = [i \in DOMAIN part |-> IF i \in cp.parts THEN [aged[i] EXCEPT !.st = "failed"] ELSE part[i]]
           /\ cp' = NoCp
           /\ Emit(<<[t |-> "tick"]>> \o FailObs(cp.parts))
      ELSE part' = aged /\ UNCHANGED cp /\ Emit(<<[t |-> "tick"]>>)
-  /\ UNCHANGED <<h, np, nextId, seen, answered, got, nblk, ndev>>
+  /\ UNCHANGED <<h, np, nextId, seen, answered, got, nblk, ndev, up>>
   /\ Hop([op |-> "tick"]) /\ quiet' = FALSE
 
 \* best_block_updated: every held part that reached its own fail-back height is failed, the rest stays
@@ -145,30 +198,35 @@ MBlock(n) ==
      /\ part' = Mark(out, "failed")
      /\ cp' = IF cp.parts \ out = {} THEN NoCp ELSE [cp EXCEPT !.parts = @ \ out]
      /\ Emit(<<[t |-> "block", h |-> h + n]>> \o FailObs(out))
-  /\ UNCHANGED <<np, nextId, seen, answered, got, ntick, ndev>>
+  /\ UNCHANGED <<np, nextId, seen, answered, got, ntick, ndev, up>>
   /\ Hop([op |-> "block", n |-> n]) /\ quiet' = FALSE
 
-\* claim_funds (the user has handled a PaymentClaimable): all parts or none; if the set is no
-\* longer the one that was shown nothing is claimed (and what is left of it is forgotten)
-MClaim ==
+\* claim_funds / claim_funds_with_known_custom_tlvs (the user has handled a PaymentClaimable): claim_funds fails
+\* everything held for the hash if its onion fields have a custom TLV of even type; otherwise all parts or none; if
+\* the set is no longer the one that was shown nothing is claimed (and what is left of it is forgotten)
+MClaim(kind) ==
   /\ Idle /\ seen /\ ~answered
   /\ StaleClaim \/ cp.parts \subseteq cp.sp      \* every HTLC held for the hash was part of what was shown
   /\ answered' = TRUE
-  /\ IF cp.parts = {} THEN UNCHANGED <<part, cp, got>> /\ Emit(<<[t |-> "claimcall"]>>)
+  /\ LET call == <<[t |-> "claimcall", kind |-> kind]>> IN
+     IF cp.parts = {} THEN UNCHANGED <<part, cp, got>> /\ Emit(call)
+     ELSE IF kind = "claim" /\ Evens(cp.fields) # {} /\ Bug # "claimEven"
+     THEN /\ part' = Mark(cp.parts, "failed") /\ cp' = NoCp /\ UNCHANGED got
+          /\ Emit(call \o FailObs(cp.parts))
      ELSE IF cp.complete /\ SumP(cp.parts) = cp.shown
      THEN /\ part' = Mark(cp.parts, "ful") /\ cp' = NoCp /\ got' = got + cp.shown
-          /\ Emit(<<[t |-> "claimcall"]>> \o FulObs(cp.parts) \o <<[t |-> "claimed", amt |-> cp.shown]>>)
+          /\ Emit(call \o FulObs(cp.parts) \o <<[t |-> "claimed", amt |-> cp.shown]>>)
      ELSE /\ part' = Mark(cp.parts, "leaked") /\ cp' = NoCp /\ UNCHANGED got
-          /\ Emit(<<[t |-> "claimcall"]>>)
-  /\ UNCHANGED <<h, np, nextId, seen, ntick, nblk, ndev>>
-  /\ Hop([op |-> "claim"]) /\ quiet' = FALSE
+          /\ Emit(call)
+  /\ UNCHANGED <<h, np, nextId, seen, ntick, nblk, ndev, up>>
+  /\ Hop([op |-> "claim", kind |-> kind]) /\ quiet' = FALSE
 
 MFailBack ==
   /\ Idle /\ seen /\ ~answered
   /\ answered' = TRUE
   /\ part' = Mark(cp.parts, "failed") /\ cp' = NoCp
   /\ Emit(<<[t |-> "failcall"]>> \o FailObs(cp.parts))
-  /\ UNCHANGED <<h, np, nextId, seen, got, ntick, nblk, ndev>>
+  /\ UNCHANGED <<h, np, nextId, seen, got, ntick, nblk, ndev, up>>
   /\ Hop([op |-> "failback"]) /\ quiet' = FALSE
 
 MQuiet ==
@@ -181,8 +239,9 @@ MDone == quiet /\ Idle /\ UNCHANGED mvars
 
 MCNext ==
   \/ MObs
-  \/ \E a \in Amts, sec \in Secs, tot \in Tots, cl \in Cls : MPart(a, sec, tot, cl)
-  \/ MTick \/ MClaim \/ MFailBack
+  \/ \E a \in Amts, sec \in Secs, tot \in Tots, cl \in Cls, f \in Flds, sk \in Sks : MPart(a, sec, tot, cl, f, sk)
+  \/ MTick \/ MFailBack
+  \/ \E kind \in ClaimKinds : MClaim(kind)
   \/ \E n \in 1..100 : MBlock(n)
   \/ MQuiet \/ MDone
 
@@ -192,5 +251,5 @@ Bound == nops <= MaxOps
 View == <<rvars, dvars, obs, quiet, nops>>
 
 Pick == (SumP(DOMAIN part) * 7 + h + ntick * 3 + nblk * 5 + np + got) % EmitMod = 0
-EmitScripts == (quiet /\ Idle /\ Len(hist) > 2 /\ (answered \/ nblk > 0 \/ ntick > 0) /\ Pick) => PrintT(<<"SCRIPT", ToJson([c |-> C, regamt |-> RegAmt, regmin |-> RegMin, ops |-> hist])>>)
+EmitScripts == (quiet /\ Idle /\ Len(hist) > 2 /\ (answered \/ nblk > 0 \/ ntick > 0) /\ Pick) => PrintT(<<"SCRIPT", ToJson([c |-> C, regamt |-> RegAmt, regmin |-> RegMin, regmeta |-> RegMeta, up |-> up, ops |-> hist])>>)
 =============================================================================
